@@ -412,6 +412,13 @@ impl World {
         self.layers.len() - 1
     }
 
+    /// number N of the on-disk directory `L<N>` that is the top layer (differs from `top()` when the
+    /// layer list names the lowest directory again as the top layer); the strace checker keys on it
+    pub fn top_dir_index(&self) -> usize {
+        let r = &self.roots[self.top()];
+        self.roots.iter().position(|x| x == r).unwrap_or(self.top())
+    }
+
     pub fn snapshot(&self) -> Result<Vec<Tree>, String> {
         self.roots.iter().map(|r| walk(r)).collect()
     }
@@ -638,7 +645,7 @@ pub fn exec(c: &mut Case, w: &mut World, op: &FOp) -> bool {
         c.sit("unsupported_pair_call");
     }
     let mut ok = true;
-    marker("begin", c.idx, w.top());
+    marker("begin", c.idx, w.top_dir_index());
     // ------------------------------------------------------------------ perform + result oracle
     let mut top_expected: Option<Tree> = Some(before[w.top()].clone()); // None = adopt (validated separately)
     match op {
@@ -1216,7 +1223,7 @@ pub fn exec(c: &mut Case, w: &mut World, op: &FOp) -> bool {
             }
         }
     }
-    marker("end", c.idx, w.top());
+    marker("end", c.idx, w.top_dir_index());
     // ------------------------------------------------------------------ M-fs: on-disk effects
     let after = match w.snapshot() {
         Ok(s) => s,
